@@ -217,6 +217,22 @@ class StrExec:
                 return UNKNOWN
             if name in ('np.array', 'numpy.array', 'np.asarray', 'np.ascontiguousarray') and len(n.args) >= 1 and isinstance(self.ev(n.args[0]), list):
                 return list(self.ev(n.args[0]))     # an array made from a sequence: the same values
+            if name in ('math.factorial', 'factorial', 'np.math.factorial', 'scipy.special.factorial', 'math.comb', 'abs', 'min', 'max', 'round') \
+                    and n.args and not n.keywords:
+                a_ = [self.ev(x_) for x_ in n.args]
+                if all(isinstance(x_, (int, float)) and not isinstance(x_, bool) for x_ in a_):
+                    import math as _m
+                    try:
+                        if name.endswith('factorial'):
+                            return _m.factorial(int(a_[0])) if len(a_) == 1 and float(a_[0]).is_integer() and a_[0] >= 0 else UNKNOWN
+                        if name == 'math.comb':
+                            return _m.comb(int(a_[0]), int(a_[1])) if len(a_) == 2 else UNKNOWN
+                        return {'abs': abs, 'min': min, 'max': max, 'round': round}[name](*a_)
+                    except Exception:
+                        return UNKNOWN
+            if name in ('np.exp', 'numpy.exp', 'np.log', 'numpy.log') and len(n.args) == 1 and isinstance(self.ev(n.args[0]), list) \
+                    and all(isinstance(x_, (int, float)) and not isinstance(x_, bool) for x_ in self.ev(n.args[0])):
+                return [Hole('%s(%r)' % (name.split('.')[-1], float(x_))) for x_ in self.ev(n.args[0])]     # elementwise, kept symbolic
             if name in ('list', 'tuple') and len(n.args) == 1:
                 v = self.ev(n.args[0])
                 return list(v) if isinstance(v, (list, dict)) else UNKNOWN
